@@ -25,6 +25,7 @@ from .values import (
     to_integer,
     to_string,
     js_pow,
+    array_index,
     js_typeof,
 )
 from .errors import (
@@ -1072,12 +1073,9 @@ class VM:
 
         if isinstance(obj, JSTypedArray):
             # Typed array index access
-            try:
-                idx = int(key_str)
-                if idx >= 0:
-                    return obj.get_index(idx)
-            except ValueError:
-                pass
+            idx = array_index(key_str)
+            if idx is not None:
+                return obj.get_index(idx)
             if key_str == "length":
                 return obj.length
             if key_str == "BYTES_PER_ELEMENT":
@@ -1095,12 +1093,9 @@ class VM:
 
         if isinstance(obj, JSArray):
             # Array index access
-            try:
-                idx = int(key_str)
-                if idx >= 0:
-                    return obj.get_index(idx)
-            except ValueError:
-                pass
+            idx = array_index(key_str)
+            if idx is not None:
+                return obj.get_index(idx)
             if key_str == "length":
                 return obj.length
             # Built-in array methods
@@ -1185,12 +1180,9 @@ class VM:
 
         if isinstance(obj, str):
             # String character access
-            try:
-                idx = int(key_str)
-                if 0 <= idx < len(obj):
-                    return obj[idx]
-            except ValueError:
-                pass
+            idx = array_index(key_str)
+            if idx is not None and idx < len(obj):
+                return obj[idx]
             if key_str == "length":
                 return len(obj)
             # String methods
@@ -2354,13 +2346,10 @@ class VM:
         key_str = to_string(key) if not isinstance(key, str) else key
 
         if isinstance(obj, JSTypedArray):
-            try:
-                idx = int(key_str)
-                if idx >= 0:
-                    obj.set_index(idx, value)
-                    return
-            except ValueError:
-                pass
+            idx = array_index(key_str)
+            if idx is not None:
+                obj.set_index(idx, value)
+                return
             obj.set(key_str, value)
             return
 
@@ -2380,13 +2369,10 @@ class VM:
                 return
             # Strict array mode: reject non-integer indices
             # Valid indices are integer strings in range [0, 2^32-2]
-            try:
-                idx = int(key_str)
-                if idx >= 0 and str(idx) == key_str:
-                    obj.set_index(idx, value)
-                    return
-            except ValueError:
-                pass
+            idx = array_index(key_str)
+            if idx is not None:
+                obj.set_index(idx, value)
+                return
             # If key looks like a number but isn't a valid integer index, throw
             # This includes NaN, Infinity, -Infinity, floats like "1.2"
             invalid_keys = ("NaN", "Infinity", "-Infinity")
